@@ -279,3 +279,122 @@ V("C03", "benign-local-try", L,
   ("    @wrap_exceptions\n    def num_fds(self):\n        return len(os.listdir(f\"{self._procfs_path}/{self.pid}/fd\"))",
    "    @wrap_exceptions\n    def num_fds(self):\n        path = f\"{self._procfs_path}/{self.pid}/fd\"\n        names = os.listdir(path)\n        return len(names)"),
   "silent")
+
+# ----------------------------------------------------------------- C02
+V("C02", "defect-F8-returns", I,
+  ("            return (self.pid, self._proc.create_time(monotonic=True))",
+   "            return (self.pid, self.create_time())"), "fires:C02.R3")
+V("C02", "monotonic-flag-ignored", L,
+  ("        if monotonic:\n            return ctime / CLOCK_TICKS\n", ""), "fires:C02.R3")
+V("C02", "ident-from-cached-global", I,
+  ("            return (self.pid, self._proc.create_time(monotonic=True))",
+   "            return (self.pid, self._proc.create_time(monotonic=True) + (_LOWEST_PID or 0))"),
+  "fires:C02.R3")
+V("C02", "hash-pid-only", I,
+  ("            self._hash = hash(self._ident)", "            self._hash = hash(self.pid)"),
+  "fires:C02.R1")
+V("C02", "eq-pid-only", I,
+  ("        return self._ident == other._ident", "        return self.pid == other.pid"),
+  "fires:C02.R1")
+V("C02", "ident-refreshed-in-is-running", I,
+  ("            self._pid_reused = self != Process(self.pid)",
+   "            self._ident = self._get_ident()\n            self._pid_reused = self != Process(self.pid)"),
+  "fires:C02.R2")
+V("C02", "create-time-recomputed", I,
+  ("        if self._create_time is None:\n            self._create_time = self._proc.create_time()\n        return self._create_time",
+   "        self._create_time = self._proc.create_time()\n        return self._create_time"),
+  "fires:C02.R2")
+V("C02", "reused-not-published", I,
+  ("                _pids_reused.add(self.pid)\n", ""), "fires:C02.R4")
+V("C02", "benign-ident-local", I,
+  ("            return (self.pid, self._proc.create_time(monotonic=True))",
+   "            start = self._proc.create_time(monotonic=True)\n            return (self.pid, start)"),
+  "silent")
+
+# ----------------------------------------------------------------- C04
+V("C04", "defect-F9-returns", I,
+  ("        try:\n            return _psplatform.pid_exists(pid)\n        except OverflowError:\n            # PID does not fit the C pid type, so it cannot exist.\n            return False",
+   "        return _psplatform.pid_exists(pid)"), "fires:C04.R2")
+V("C04", "pids-not-sorted", I,
+  ("    ret = sorted(_psplatform.pids())", "    ret = list(_psplatform.pids())"), "fires:C04.R1")
+V("C04", "iter-not-sorted", I,
+  ("        ls = sorted(list(pmap.items()) + list(dict.fromkeys(new_pids).items()))",
+   "        ls = list(pmap.items()) + list(dict.fromkeys(new_pids).items())"), "fires:C04.R1")
+V("C04", "linux-pids-filter-dropped", L,
+  ("    return [int(x) for x in os.listdir(path) if x.isdigit()]",
+   "    return [int(x) for x in os.listdir(path) if x[:1].isdigit()]"), "fires:C04.R1")
+V("C04", "pid-exists-eperm-escapes", P,
+  ("    except PermissionError:\n        # EPERM clearly means there's a process to deny access to\n        return True\n", ""),
+  "fires:C04.R2")
+V("C04", "tgid-check-dropped", L,
+  ("                        return tgid == pid", "                        return True"),
+  "fires:C04.R2")
+V("C04", "no-copy", I,
+  ("    pmap = _pmap.copy()", "    pmap = _pmap"), "fires:C04.R3")
+V("C04", "gone-not-dropped", I,
+  ("    for pid in gone_pids:\n        remove(pid)\n", ""), "fires:C04.R3")
+V("C04", "gone-inverted", I,
+  ("    gone_pids = b - a", "    gone_pids = a - b"), "fires:C04.R3")
+V("C04", "reused-not-drained", I,
+  ("    while _pids_reused:\n        pid = _pids_reused.pop()\n        debug(f\"refreshing Process instance for reused PID {pid}\")\n        remove(pid)\n",
+   ""), "fires:C04.R3")
+V("C04", "finally-replaced", I,
+  ("            except NoSuchProcess:\n                remove(pid)\n    finally:\n        _pmap = pmap",
+   "            except NoSuchProcess:\n                remove(pid)\n    finally:\n        pass\n    _pmap = pmap"),
+  "fires:C04.R3")
+V("C04", "ad-value-dropped", I,
+  ("proc.info = proc.as_dict(attrs=attrs, ad_value=ad_value)", "proc.info = proc.as_dict(attrs=attrs)"),
+  "fires:C04.R3")
+V("C04", "cache-clear-noop", I,
+  ("process_iter.cache_clear = lambda: _pmap.clear()", "process_iter.cache_clear = lambda: _pids_reused.clear()"),
+  "fires:C04.R3")
+V("C04", "inplace-remove", I,
+  ("    def remove(pid):\n        pmap.pop(pid, None)", "    def remove(pid):\n        pmap.pop(pid, None)\n        _pmap.pop(pid, None)"),
+  "fires:C04.R4")
+V("C04", "benign-dict-copy", I,
+  ("    pmap = _pmap.copy()", "    pmap = dict(_pmap)"), "silent")
+
+# ----------------------------------------------------------------- C10
+V("C10", "lock-dropped-in-wrap-numbers", C,
+  ("    with _wn.lock:\n        return _wn.run(input_dict, name)",
+   "    return _wn.run(input_dict, name)"), "fires:C10.R1")
+V("C10", "cache-clear-unlocked", C,
+  ("        with self.lock:\n            if name is None:\n                self.cache.clear()",
+   "        if True:\n            if name is None:\n                self.cache.clear()"),
+  "fires:C10.R1")
+V("C10", "reminder-adds-new-value", C,
+  ("                    self.reminders[name][remkey] += old_value",
+   "                    self.reminders[name][remkey] += input_value"), "fires:C10.R2")
+V("C10", "wrap-test-inverted", C,
+  ("                if input_value < old_value:", "                if input_value > old_value:"),
+  "fires:C10.R2")
+V("C10", "wrap-test-le", C,
+  ("                if input_value < old_value:", "                if input_value <= old_value:"),
+  "fires:C10.R2")
+V("C10", "baseline-not-replaced", C,
+  ("        self.cache[name] = input_dict\n        return new_dict", "        return new_dict"),
+  "fires:C10.R2")
+V("C10", "baseline-is-adjusted-dict", C,
+  ("        self.cache[name] = input_dict\n        return new_dict",
+   "        self.cache[name] = new_dict\n        return new_dict"), "fires:C10.R2")
+V("C10", "output-without-reminder", C,
+  ("                bits.append(input_value + self.reminders[name][remkey])",
+   "                bits.append(input_value)"), "fires:C10.R2")
+V("C10", "purge-skipped", C,
+  ("        self._remove_dead_reminders(input_dict, name)\n\n        old_dict = self.cache[name]",
+   "        old_dict = self.cache[name]"), "fires:C10.R3")
+V("C10", "cache-clear-keeps-reminders", C,
+  ("                self.reminders.pop(name, None)\n", ""), "fires:C10.R3")
+V("C10", "shared-history-name", I,
+  ("        rawdict = _wrap_numbers(rawdict, 'psutil.net_io_counters')",
+   "        rawdict = _wrap_numbers(rawdict, 'psutil.disk_io_counters')"), "fires:C10.R4")
+V("C10", "partial-wrong-name", I,
+  ("    _wrap_numbers.cache_clear, 'psutil.net_io_counters'\n",
+   "    _wrap_numbers.cache_clear, 'psutil.net_io_counter'\n"), "fires:C10.R4")
+V("C10", "nowrap-ignored", I,
+  ("    if nowrap:\n        rawdict = _wrap_numbers(rawdict, 'psutil.disk_io_counters')",
+   "    if True:\n        rawdict = _wrap_numbers(rawdict, 'psutil.disk_io_counters')"),
+  "fires:C10.R4")
+V("C10", "benign-gt-form", C,
+  ("                if input_value < old_value:", "                if old_value > input_value:"),
+  "silent")
